@@ -863,42 +863,57 @@ def inst_view(lines, inst, lo, hi, rename=None):
     return out
 
 
-def metamorphic(prop, case, impl_lines, rerun):
-    """implementation-only twins: returns a finding text or None"""
-    if rerun is None:
-        return None
+def twin_cases(prop, case, impl_lines):
+    """the implementation-only twins of one case: list of (tag, twin case, meta)"""
+    out = []
     if prop == "C16":
-        if not any(l.startswith("log ") for l in impl_lines):
-            return None
-        t = rerun(twin_nolog(case))
-        if t is None:
-            return None
+        if any(l.startswith("log ") for l in impl_lines):
+            out.append(("nolog", twin_nolog(case), None))
+    elif prop == "C17":
+        for byte in (0, 255, 90):
+            tc = twin_fill(case, byte)
+            if tc != case:
+                out.append(("fill", tc, byte))
+                break       # one differing fill pattern per case (the case's own fills already vary)
+        tw = twin_copy(case, impl_lines)
+        if tw:
+            out.append(("copy", tw[0], tw[1:]))
+    return out
+
+
+def twin_verdict(prop, tag, meta, case, impl_lines, t):
+    if t is None:
+        return None
+    if tag == "nolog":
         a, b = strip_logs(impl_lines[1:]), strip_logs(t[1:])
         if a != b:
             k = next((q for q in range(min(len(a), len(b))) if a[q] != b[q]), min(len(a), len(b)))
             return "the same history runs differently with and without a logger attached; first difference: with logger '%s', without '%s'" % (
                 a[k] if k < len(a) else "<end>", b[k] if k < len(b) else "<end>")
-    if prop == "C17":
-        for byte in (0, 255, 90):
-            tc = twin_fill(case, byte)
-            if tc == case:
-                continue
-            t = rerun(tc)
-            if t is not None and t[1:] != impl_lines[1:]:
-                k = next((q for q in range(1, min(len(t), len(impl_lines))) if t[q] != impl_lines[q]), min(len(t), len(impl_lines)))
-                return "the same history behaves differently when the storage is pre-filled with byte %d; first difference: '%s' vs '%s'" % (
-                    byte, impl_lines[k] if k < len(impl_lines) else "<end>", t[k] if k < len(t) else "<end>")
-        tw = twin_copy(case, impl_lines)
-        if tw:
-            tc, j, src, kc, last = tw
-            t = rerun(tc)
-            if t is not None:
-                a = inst_view(impl_lines, j, kc, last, rename=src)
-                b = inst_view(t, src, kc, last)
-                if a != b:
-                    k = next((q for q in range(min(len(a), len(b))) if a[q] != b[q]), min(len(a), len(b)))
-                    return "after op%d (copy %d <- %d) the copy does not respond like the original would to the same calls; first difference: copy '%s', original '%s'" % (
-                        kc, j, src, a[k] if k < len(a) else "<end>", b[k] if k < len(b) else "<end>")
+    elif tag == "fill":
+        if t[1:] != impl_lines[1:]:
+            k = next((q for q in range(1, min(len(t), len(impl_lines))) if t[q] != impl_lines[q]), min(len(t), len(impl_lines)))
+            return "the same history behaves differently when the storage is pre-filled with byte %d; first difference: '%s' vs '%s'" % (
+                meta, impl_lines[k] if k < len(impl_lines) else "<end>", t[k] if k < len(t) else "<end>")
+    elif tag == "copy":
+        j, src, kc, last = meta
+        a = inst_view(impl_lines, j, kc, last, rename=src)
+        b = inst_view(t, src, kc, last)
+        if a != b:
+            k = next((q for q in range(min(len(a), len(b))) if a[q] != b[q]), min(len(a), len(b)))
+            return "after op%d (copy %d <- %d) the copy does not respond like the original would to the same calls; first difference: copy '%s', original '%s'" % (
+                kc, j, src, a[k] if k < len(a) else "<end>", b[k] if k < len(b) else "<end>")
+    return None
+
+
+def metamorphic(prop, case, impl_lines, rerun):
+    """implementation-only twins: returns a finding text or None"""
+    if rerun is None:
+        return None
+    for tag, tc, meta in twin_cases(prop, case, impl_lines):
+        v = twin_verdict(prop, tag, meta, case, impl_lines, rerun(tc))
+        if v:
+            return v
     return None
 
 
